@@ -230,11 +230,19 @@ func installGuards(vm *goatlang.VM, maxLen int) {
 		if orig.IsNil() {
 			return
 		}
+		depth := 0
 		vm.Set(name, goatlang.NewFunc(fixed+1, 1, func(v *goatlang.VM, args []goatlang.Value, vargs ...goatlang.Value) []goatlang.Value {
 			all := append(append([]goatlang.Value{}, args...), vargs...)
 			if !check(all) {
 				panic(BudgetMarker + ": " + name + " output size")
 			}
+			// the wrapped native never calls back into this wrapper; if it does, Set did not install a new
+			// value under the name but changed the old function value itself
+			if depth > 8 {
+				panic("the function value that stood under " + name + " before Set now runs the code that was set")
+			}
+			depth++
+			defer func() { depth-- }()
 			rets, err := v.Func(orig, 1, all...)
 			if err != nil {
 				panic(err)
